@@ -7,6 +7,5 @@ CONSTANTS
   GenVars = {"x"}
   SimpleKinds = {"assign", "use", "aug", "import", "exas", "call", "return"}
   Shape = "any"
-INVARIANT InvAll
-INVARIANT EmitDone
+INVARIANT InvAllLive
 CHECK_DEADLOCK FALSE
